@@ -10,7 +10,9 @@ RULES = {"C13.a", "C13.b", "C13.c", "C13.d", "C13.e", "C13.f"}
 
 
 def check(ctx):
-    sharing.analyze(ctx, RULES)
+    # (C14.d: the lock discipline — a failing build that blocks on the lock it already holds never returns its error and
+    # stops every later build)
+    sharing.analyze(ctx, RULES | {"C14.d"})
     # 'a build that fails returns an error without affecting later builds': the compilation runs under the cache's write
     # lock, so a panic there (instead of an Err) poisons the lock and every later build panics: the build-path panic
     # inventory (with the partition invariants its reasons cite) and the build path's error discipline belong here as well
